@@ -36,7 +36,8 @@ CODES = {
 def run(ctx):
     ctx.static_and_proofs("validate")
     nseq, nsecond, nconc = (1000, 60, 400) if ctx.tier == "quick" else (24000, 600, 4000)
-    args = ["-n", str(nseq), "-second", str(nsecond), "-conc", str(nconc)]
+    nresub = 114 if ctx.tier == "quick" else 1140
+    args = ["-n", str(nseq), "-second", str(nsecond), "-conc", str(nconc), "-resub", str(nresub)]
     if ctx.replay:
         # ./check C16 --replay replays/C16-k.json : re-run exactly that case (same seed, same index; a second-use case
         # with its group of 20, a concurrent case with its whole batch)
@@ -45,7 +46,7 @@ def run(ctx):
         ctx.env["VERIF_SEED"] = str(rp.get("seed", ctx.seed))
         inp = rp["input"]
         args = ["-n", str(inp.get("nseq", nseq)), "-second", str(inp.get("nsecond", nsecond)), "-conc", str(inp.get("nconc", nconc)),
-                "-only", str(inp["index"])]
+                "-resub", str(inp.get("nresub", nresub)), "-only", str(inp["index"])]
     cases = ctx.harness("c16", args, timeout=3000)
     if cases is None:
         ctx.evidence(dict(evaluations=0, distinct_nontrivial=0, rule="harness did not run", samples=[]))
@@ -97,6 +98,8 @@ def run(ctx):
             n_same = sum(1 for b in bad if b[1] == codev)
             if c["dist"].get("family") == "concurrent":
                 text += " [this call overlapped with the same calls on other plans from 7 more goroutines in the same process]"
+            elif c["dist"].get("family") == "resubmit":
+                text += " [this is the Submit of a plan object that had been rejected as malformed (%s) and was then corrected in place]" % ", ".join(c["dist"].get("pre") or [])
             elif c["dist"].get("family") == "second-use":
                 text += " [this Submit followed other Submits of the same plan (same names / key values) on the same Workstream]"
             obj = dict(kind="c16-verdict-%d" % codev, why=text, case=c["id"], family=c["dist"].get("family"), input=c["input"], mutations=c["dist"]["mutations"],
@@ -125,6 +128,9 @@ def run(ctx):
              "in the second half - alternately malformed and well formed, on the same Workstream), then a concurrent batch (bigger plans, "
              "every 3rd valid, workflow.Validate from 8 goroutines at once, then Workstream.Submit from 8 goroutines at once on one Workstream; "
              "rows judged per plan id / plan name / request nonce, and the tables must grow by exactly the accepted plans' objects); "
+             "a reject-correct-resubmit family: every mutation kind (and 'the same action twice in a sequence') is applied to a valid plan object, "
+             "Submit must reject it (once, or twice for two different reasons), the very same object is corrected in place (exported fields put "
+             "back) and submitted again - that last Submit is the case, judged like any other (accepted iff WF, stored = normal form, ...); "
              "with the concurrent batch, three large valid plans (1 x 100 x 200 = 20 106 objects on its own; 60 x 10 x 10 and 1 x 40 x 150 while the "
              "batch's Submits run) go through Submit on a second Workstream (in-memory vault) and are judged on the Go side only: ids pairwise "
              "distinct, non-nil, v7, never seen before in the process, plan accepted and read back with the same ids; "
@@ -142,6 +148,8 @@ def run(ctx):
         start_called=len(started), start_refused=sum(1 for s in started if s == 0),
         distribution=dict(mutation_kinds=histogram_all(muts),
                           mutations_applied=fw.histogram(len(c["dist"]["mutations"]) for c in cases),
+                          resubmit=histogram_all("after %s -> submit=%d" % ("+".join(c["dist"].get("pre") or ["(not rejected)"]) if c["dist"]["submit"] != 3 else "(first Submit not rejected: skipped)", c["dist"]["submit"])
+                                                 for c in cases if c["dist"].get("family") == "resubmit"),
                           family=fw.histogram("%s submit=%d" % (c["dist"].get("family"), c["dist"]["submit"]) for c in cases),
                           start_tamper=histogram_all("%s -> start=%d" % (c["dist"].get("tamper") or "(none)", c["dist"]["start"])
                                                      for c in cases if c["dist"]["start"] != 3),
